@@ -485,21 +485,51 @@ func genReverts(r *vc.Rand) *Scenario {
 	sc := &Scenario{Kind: "reverts"}
 	// originals: tx 0 funds alice; tx 1..k are multi-posting transactions
 	setup := []Op{g.fund("alice", 1000)}
+	multi := r.Chance(1, 2) // originals in several assets, with repeated and zero amounts
+	if multi {
+		op := Op{Kind: "script", Tag: g.tag(), Plain: "send [EUR/2 1000] (\n\tsource = @world\n\tdestination = @alice\n)\nsend [COIN 1000] (\n\tsource = @world\n\tdestination = @alice\n)\n"}
+		op.Meta = map[string]string{"req": op.Tag}
+		setup = append(setup, op)
+	}
 	nOrig := r.Range(1, 3)
 	for k := 0; k < nOrig; k++ {
 		var ps []PostingJ
 		np := r.Range(1, 6)
 		cur := "alice"
+		amt := int64(r.Range(1, 40))
 		for j := 0; j < np; j++ {
 			dst := vc.Pick(r, []string{"bob", "carol", "dave", "world", "bob"})
+			if !multi || r.Chance(1, 2) {
+				amt = int64(r.Range(1, 40))
+			}
+			if multi && r.Chance(1, 8) {
+				amt = 0
+			}
+			src := "alice"
 			if r.Chance(1, 3) { // chain: spend what the previous posting delivered
-				ps = append(ps, P(cur, dst, int64(r.Range(1, 40))))
+				src = cur
 				if dst != "world" {
 					cur = dst
 				}
-			} else {
-				ps = append(ps, P("alice", dst, int64(r.Range(1, 40))))
 			}
+			q := P(src, dst, amt)
+			if multi {
+				q.Asset = vc.Pick(r, []string{"USD", "EUR/2", "COIN"})
+				if src != "alice" && q.Asset != ps[len(ps)-1].Asset {
+					q.Source = "alice" // a chain only continues in the asset that was delivered
+				}
+			}
+			ps = append(ps, q)
+		}
+		if multi && r.Bool() { // the same transaction written as a script (no postings-to-script translation on the way in)
+			var sb strings.Builder
+			for _, q := range ps {
+				fmt.Fprintf(&sb, "send [%s %s] (\n\tsource = @%s\n\tdestination = @%s\n)\n", q.Asset, q.Amount, q.Source, q.Destination)
+			}
+			op := Op{Kind: "script", Tag: g.tag(), Plain: sb.String()}
+			op.Meta = map[string]string{"req": op.Tag}
+			setup = append(setup, op)
+			continue
 		}
 		setup = append(setup, g.postings(ps...))
 	}
@@ -516,6 +546,9 @@ func genReverts(r *vc.Rand) *Scenario {
 	nClients := r.Range(2, 5)
 	mk := func() Op {
 		id := fmt.Sprint(r.Range(0, nOrig))
+		if multi {
+			id = fmt.Sprint(r.Range(1, nOrig+1))
+		}
 		if r.Chance(1, 10) {
 			id = "99" // unknown transaction
 		}
@@ -532,7 +565,7 @@ func genReverts(r *vc.Rand) *Scenario {
 	if r.Bool() { // later, sequential attempts on the same targets (forced and unforced), after a restart
 		var ops []Op
 		for k := r.Range(1, 3); k > 0; k-- {
-			ops = append(ops, g.revert(fmt.Sprint(r.Range(0, nOrig)), r.Bool()))
+			ops = append(ops, g.revert(fmt.Sprint(r.Range(0, nOrig+1)), r.Bool()))
 		}
 		sc.Phases = append(sc.Phases, Phase{Clients: []ClientPlan{{Name: "later", Ops: ops}}, DieAt: -1})
 	}
@@ -548,8 +581,15 @@ func genPostingMode(r *vc.Rand) *Scenario {
 	g := &opGen{r: r}
 	sc := &Scenario{Kind: "posting-mode"}
 	var setup []Op
+	rich := r.Chance(1, 2) // every account holds plenty of every asset: most requests are accepted
 	for _, a := range c09Accounts[1:] {
-		if r.Bool() {
+		if rich {
+			var ps []PostingJ
+			for _, as := range c09Assets {
+				ps = append(ps, PostingJ{"world", a, "5000", as})
+			}
+			setup = append(setup, g.postings(ps...))
+		} else if r.Bool() {
 			op := g.postings(PostingJ{"world", a, big.NewInt(int64(r.Intn(300))).String(), vc.Pick(r, c09Assets[:2])})
 			setup = append(setup, op)
 		}
@@ -568,6 +608,10 @@ func genPostingMode(r *vc.Rand) *Scenario {
 				as = vc.Pick(r, c09Assets)
 			}
 			amt := big.NewInt(int64(vc.Pick(r, []int{0, 1, 1, 5, 5, 10, 100, 250})))
+			if k > 0 && r.Chance(1, 3) { // the same amount again, often in another asset
+				amt, _ = new(big.Int).SetString(ps[k-1].Amount, 10)
+				as = vc.Pick(r, c09Assets)
+			}
 			switch r.Intn(12) {
 			case 0:
 				amt = new(big.Int).Add(big64, big.NewInt(int64(vc.Pick(r, []int{0, 1, 5, 5}))))
@@ -710,4 +754,113 @@ func genWritesForEvents(r *vc.Rand) *Scenario {
 		}
 	}
 	return sc
+}
+
+// ------------------------------------------------------------------------------------------------ bursts
+// runBurst: truly simultaneous duplicates. One generation, free-running (no hooks, no gate latency); per round a fresh
+// reference / idempotency key and `width` identical requests released together by a barrier.
+func runBurst(rounds, width int, kind string) *ScenarioRun {
+	env := NewEnv()
+	run := &ScenarioRun{Env: env}
+	g, err := env.NewGeneration(context.Background())
+	if err != nil {
+		run.InitErr = err.Error()
+		return run
+	}
+	og := &opGen{r: vc.NewRand(7)}
+	for rd := 0; rd < rounds; rd++ {
+		base := og.send("world", "sink", 1, "", "literal")
+		switch kind {
+		case "reference":
+			base.Reference = fmt.Sprintf("burst-ref-%d", rd)
+		case "ik":
+			base.IK = fmt.Sprintf("burst-ik-%d", rd)
+		}
+		start := make(chan struct{})
+		var wg sync.WaitGroup
+		for w := 0; w < width; w++ {
+			op := base
+			if kind == "reference" { // different requests, same reference
+				t := og.tag()
+				op.Tag = t
+				op.Meta = map[string]string{"req": t}
+			}
+			op.Attempt = w + 1
+			wg.Add(1)
+			go func(w int) {
+				defer wg.Done()
+				<-start
+				rec := env.hist.call(fmt.Sprintf("b%d", w), g.n, op, env.step.Add(1))
+				res := execOp(context.Background(), g, op)
+				env.hist.ret(rec, res, env.step.Add(1))
+			}(w)
+		}
+		close(start)
+		done := make(chan struct{})
+		go func() { wg.Wait(); close(done) }()
+		select {
+		case <-done:
+		case <-time.After(60 * time.Second):
+			run.Stalled = "burst round did not finish within 60 s"
+			dumpStacks()
+			run.Obs = env.Observe(true)
+			return run
+		}
+	}
+	run.Obs = env.Observe(true)
+	return run
+}
+
+// ------------------------------------------------------------------------------------------------ fail storm
+// runFailStorm: free-running writers keep appending while the k-th InsertLogs fails (the runner dies, as in production).
+// Requests caught by the failure stay open; nothing acknowledged may be missing from the store.
+func runFailStorm(r *vc.Rand) *ScenarioRun {
+	env := NewEnv()
+	run := &ScenarioRun{Env: env}
+	env.store.FailInsert = r.Range(2, 8)
+	g, err := env.NewGeneration(context.Background())
+	if err != nil {
+		run.InitErr = err.Error()
+		return run
+	}
+	og := &opGen{r: r}
+	nClients := r.Range(6, 16)
+	var wg sync.WaitGroup
+	for c := 0; c < nClients; c++ {
+		ops := make([]Op, r.Range(3, 8))
+		for k := range ops {
+			switch r.Intn(3) {
+			case 0:
+				ops[k] = og.fund(vc.Pick(r, accts), int64(r.Range(1, 9)))
+			case 1:
+				ops[k] = og.saveMetaAcc(vc.Pick(r, accts), nil)
+			default:
+				ops[k] = og.delMetaAcc(vc.Pick(r, accts))
+			}
+		}
+		wg.Add(1)
+		go func(c int, ops []Op) {
+			defer wg.Done()
+			for _, op := range ops {
+				rec := env.hist.call(fmt.Sprintf("s%d", c), g.n, op, env.step.Add(1))
+				res := execOp(context.Background(), g, op)
+				env.hist.ret(rec, res, env.step.Add(1))
+			}
+		}(c, ops)
+	}
+	done := make(chan struct{})
+	go func() { wg.Wait(); close(done) }()
+	for w := 0; w < 4000; w++ { // until the runner has died (or everything finished without reaching the failing call)
+		if g.dead.Load() {
+			break
+		}
+		select {
+		case <-done:
+			w = 4000
+		case <-time.After(time.Millisecond):
+		}
+	}
+	time.Sleep(20 * time.Millisecond) // acknowledgements already under way
+	run.Obs = env.Observe(false)
+	return run
 }
